@@ -200,6 +200,9 @@ type Rule struct {
 	At     string `json:"at"`
 	Action string `json:"action"` // "substitute"
 	Sub    string `json:"sub"`    // substitute slot name: rules that share Sub return the same object
+	// SubType: type of the substitute object ("" = the component's own type). A wrapper of
+	// another type may implement interfaces the component itself does not.
+	SubType string `json:"subType,omitempty"`
 }
 
 type Scanner struct {
